@@ -39,6 +39,9 @@ type c13Case struct {
 	// CrossFS: the destination root lies on another file system than the source
 	// (tmpfs <-> the disk-backed one), where in-kernel copy shortcuts do not apply
 	CrossFS bool `json:"crossfs,omitempty"`
+	// DstSetgid: the destination root is a set-group-ID directory of another group,
+	// so new entries inherit that group until their owner is set explicitly
+	DstSetgid bool `json:"dst_setgid,omitempty"`
 }
 
 var c13TreeCfg = h.TreeCfg{
@@ -103,6 +106,7 @@ func genC13(t *rapid.T) *c13Case {
 	}
 	c.Notify = rapid.Bool().Draw(t, "notify")
 	c.CrossFS = rapid.IntRange(0, 3).Draw(t, "crossfs") == 0
+	c.DstSetgid = rapid.IntRange(0, 3).Draw(t, "dstsetgid") == 0
 	return c
 }
 
@@ -189,6 +193,15 @@ func c13Check(env *h.Env, c *c13Case) error {
 			return h.Infra(err)
 		}
 	}
+	if c.DstSetgid {
+		if err := os.Chown(dstRoot, 0, 4242); err != nil {
+			return h.Infra(err)
+		}
+		if err := os.Chmod(dstRoot, 0o775|os.ModeSetgid); err != nil {
+			return h.Infra(err)
+		}
+		env.Class("setgid-destination-root")
+	}
 	if err := h.Materialise(c.Tree, srcRoot); err != nil {
 		return h.Infra(err)
 	}
@@ -227,6 +240,14 @@ func c13Check(env *h.Env, c *c13Case) error {
 	case "existingdir":
 		if err := os.Mkdir(filepath.Join(dstRoot, "existing"), 0o750); err != nil {
 			return h.Infra(err)
+		}
+		if c.DstSetgid {
+			if err := os.Chown(filepath.Join(dstRoot, "existing"), 0, 4242); err != nil {
+				return h.Infra(err)
+			}
+			if err := os.Chmod(filepath.Join(dstRoot, "existing"), 0o770|os.ModeSetgid); err != nil {
+				return h.Infra(err)
+			}
 		}
 		dst, land = "existing", "existing/"+base
 		scaffold = []string{"existing"}
